@@ -11,6 +11,7 @@ ID = "C10"
 COQ_IMPORTS = ["From HTA.lib Require Import Dag.", "From HTA.model Require Import C08_Model C08_Host."]
 SOURCES = cp.SOURCES
 TRANSLATE = [translate.gen_cprules]
+INPUT_CONTRACT = True        # the loaded frame is re-checked against the file (framework.input_contract)
 N_CASES = {"quick": 250, "thorough": 4000}
 RULE = ("the successful analyses of generated causally consistent traces and windows (as C08): get_critical_path_breakdown() is paired row by row with the critical "
         "edges, every row is judged by the verified checker check_C10 evaluated in Coq (one row per critical edge; durations add up to the path weight; a span edge "
